@@ -213,6 +213,26 @@ func c11Filter(c *Ctx, r *Report) {
 			}
 		}
 	}
+	// the mapping from the filter expression to a boolean may live in a method of its own
+	var helper *ssa.Function
+	var helperCall *ssa.Call
+	if xor != nil && getBool == nil {
+		src := xor.Call.Args[0]
+		if ex, ok := src.(*ssa.Extract); ok {
+			src = ex.Tuple
+		}
+		if hc, ok := src.(*ssa.Call); ok {
+			if sc := hc.Call.StaticCallee(); sc != nil && sc.Pkg == f.Pkg && sc.Blocks != nil {
+				for _, b := range sc.Blocks {
+					for _, in := range b.Instrs {
+						if call, ok := in.(*ssa.Call); ok && CalleeName(&call.Call) == "pkg/mlrval.Mlrval.GetBoolValue" {
+							helper, helperCall, getBool = sc, hc, call
+						}
+					}
+				}
+			}
+		}
+	}
 	if xor == nil || getBool == nil {
 		r.Fail("R11.4", "emit decision", c.Rel(f.Pos()), "TransformerPut.Transform no longer computes lib.BooleanXOR(filterBool, invertFilter) from FilterExpression.GetBoolValue()")
 		return
@@ -240,6 +260,10 @@ func c11Filter(c *Ctx, r *Report) {
 		}
 	}
 	r.Check(emitGuarded, "R11.4", "emit under the XOR", c.Rel(xor.Pos()), "the output record is appended exactly under wantToEmit", "the record is not appended under the BooleanXOR result")
+	if helper != nil {
+		c11FilterHelper(c, r, f, helper, helperCall, getBool, xor)
+		return
+	}
 	// path rule: between GetBoolValue and the XOR, under doFilter: !isBool ∧ absent → continues to XOR with false; !isBool ∧ ¬absent → error return; no nil return in between
 	var isBoolVal ssa.Value
 	for _, ref := range *getBool.Referrers() {
@@ -450,5 +474,127 @@ func c11FilterPerRecord(c *Ctx, r *Report) {
 		}
 		ok := upd != nil && main != nil && (upd.Block().Dominates(main.Block()))
 		r.Check(ok, "R11.6", "Update before the main block", c.Rel(tf.Pos()), "State.Update dominates ExecuteMainBlock", "TransformerPut.Transform does not call State.Update before ExecuteMainBlock on the record path")
+	}
+}
+
+// c11FilterHelper: the same four obligations of R11.4 when the mapping from the
+// filter expression to (keep, error) has been extracted into a method.
+func c11FilterHelper(c *Ctx, r *Report, f, h *ssa.Function, hcall, getBool, xor *ssa.Call) {
+	var isBoolVal ssa.Value
+	for _, ref := range *getBool.Referrers() {
+		if ex, ok := ref.(*ssa.Extract); ok && ex.Index == 1 {
+			isBoolVal = ex
+		}
+	}
+	problems := map[string]string{}
+	pr := &PathRule{Fn: h}
+	pr.Branch = func(fa Facts, cond ssa.Value, pol bool, iff *ssa.If) (Facts, bool) {
+		if !fa.Has("evaluated") {
+			return nil, true
+		}
+		cond, pol = stripNot(cond, pol)
+		if cond == isBoolVal {
+			if pol {
+				return fa.With("isBool"), true
+			}
+			return fa.With("notBool"), true
+		}
+		if _, name, ok := fieldLoadName(cond); ok && name == "doFilter" {
+			if pol {
+				return fa.With("doFilter"), true
+			}
+			return fa.With("isPut"), true
+		}
+		if call, ok := cond.(*ssa.Call); ok && CalleeName(&call.Call) == "pkg/mlrval.Mlrval.IsAbsent" {
+			if pol {
+				return fa.With("absent"), true
+			}
+			return fa.With("notAbsent"), true
+		}
+		return nil, true
+	}
+	pr.Transfer = func(fa Facts, in ssa.Instruction, deferred bool) []Facts {
+		if in == ssa.Instruction(getBool) {
+			return []Facts{fa.With("evaluated")}
+		}
+		return nil
+	}
+	pr.AtReturn = func(fa Facts, ret *ssa.Return) {
+		if !fa.Has("evaluated") || len(ret.Results) != 2 {
+			return
+		}
+		nilErr := false
+		if k, ok := ret.Results[1].(*ssa.Const); ok && k.IsNil() {
+			nilErr = true
+		}
+		kb, isK := constBool(ret.Results[0])
+		switch {
+		case fa.Has("doFilter") && fa.Has("notBool") && fa.Has("notAbsent"):
+			if nilErr {
+				problems["non-boolean reaches the XOR"] = c.Rel(ret.Pos()) + ": a non-boolean, non-absent filter result is answered without an error"
+			}
+		case fa.Has("doFilter") && fa.Has("notBool") && fa.Has("absent"):
+			if !nilErr {
+				problems["unexpected error"] = c.Rel(ret.Pos()) + ": an error is returned for an absent filter result"
+			} else if !(isK && !kb) {
+				problems["absent is not false"] = c.Rel(ret.Pos()) + ": an absent filter result is not answered with false"
+			}
+		case fa.Has("isBool"):
+			if !nilErr {
+				problems["unexpected error"] = c.Rel(ret.Pos()) + ": an error is returned for a boolean filter result"
+			}
+		}
+	}
+	pr.Run()
+	// in Transform: a non-nil error from the helper is returned before the XOR
+	var errv ssa.Value
+	if hcall.Referrers() != nil {
+		for _, ref := range *hcall.Referrers() {
+			if ex, ok := ref.(*ssa.Extract); ok && ex.Index == 1 {
+				errv = ex
+			}
+		}
+	}
+	pt := &PathRule{Fn: f}
+	pt.Transfer = func(fa Facts, in ssa.Instruction, deferred bool) []Facts {
+		if in == ssa.Instruction(hcall) {
+			return []Facts{fa.With("called")}
+		}
+		if in == ssa.Instruction(xor) {
+			if fa.Has("called") && !fa.Has("errNil") {
+				problems["non-boolean reaches the XOR"] = c.Rel(xor.Pos()) + ": the emit decision is reached without the helper's error having been found nil"
+			}
+			return []Facts{fa.With("xored")}
+		}
+		return nil
+	}
+	pt.Branch = func(fa Facts, cond ssa.Value, pol bool, iff *ssa.If) (Facts, bool) {
+		cond, pol = stripNot(cond, pol)
+		if cmp, ok := cond.(*ssa.BinOp); ok && errv != nil && (cmp.X == errv || cmp.Y == errv) && isNilConst(cmp.X, cmp.Y) {
+			if (cmp.Op == token.EQL && pol) || (cmp.Op == token.NEQ && !pol) {
+				return fa.With("errNil"), true
+			}
+			return fa.With("errSet"), true
+		}
+		return nil, true
+	}
+	pt.AtReturn = func(fa Facts, ret *ssa.Return) {
+		if fa.Has("called") && !fa.Has("xored") {
+			if fa.Has("errSet") {
+				if ReturnsNilError(ret) {
+					problems["non-boolean reaches the XOR"] = c.Rel(ret.Pos()) + ": the helper's error is dropped"
+				}
+			} else if ReturnsNilError(ret) {
+				problems["record dropped before the XOR"] = c.Rel(ret.Pos()) + ": a path returns successfully after evaluating the filter expression without reaching the XOR"
+			}
+		}
+	}
+	pt.Run()
+	for _, k := range []string{"non-boolean reaches the XOR", "absent is not false", "record dropped before the XOR", "unexpected error"} {
+		if msg, bad := problems[k]; bad {
+			r.Fail("R11.4", "filter: "+k, strings.SplitN(msg, ": ", 2)[0], msg)
+		} else {
+			r.OK("R11.4", "filter: "+k, c.Rel(f.Pos()), "excluded on every path (the mapping to a boolean is in "+h.Name()+")")
+		}
 	}
 }
